@@ -242,14 +242,17 @@ register('C18',
          'DESIGN.md §7 C18')
 
 register('C06',
-         'PARTIAL. Coq theorems over the Layer-B machine: whatever happened inside a transaction (any number of flushes, any partial work), '
+         'PARTIAL (process death only). Coq theorems over the Layer-B machine: whatever happened inside a transaction (any number of flushes, any partial work), '
          'a rollback restores the committed database and the initial unit of work; from a transaction boundary, run (p1 ++ failed ++ '
          '[Rollback] ++ rest) = run (p1 ++ rest) as whole states - the rest of the program is versioned exactly as if the rolled-back '
-         'transaction had never been attempted. Savepoints: the database part is restored exactly; the whole state only when the inner '
-         'work left the unit of work unchanged - the full savepoint clause is refuted by a recorded open finding. Tie to the code: fault '
+         'transaction had never been attempted. Savepoints: a rolled back savepoint restores the database AND the unit of work, the whole '
+         'state is as if the inner work had never been attempted (the clause was refuted for the original code and is proved since the '
+         'repair of F-C06-savepoint-inner-flush). In memory: no unit of work / map entry after a rollback (Layer M); clear and '
+         'clear_connection of the model are generated from manager.py on every build. Tie to the code: fault '
          'injection through before_cursor_execute at statement boundaries of a chosen transaction (quick: first, last, 4 random; '
          'thorough: every boundary), comparing all tables and the manager maps after the rollback with the state before, and the final '
-         'tables with the run from which the failed transaction is deleted; savepoint histories with versioned and non-versioned inner work.',
+         'tables with the run from which the failed transaction is deleted; savepoint histories (rollback / release / rollback of the '
+         'connection from outside / close with an open savepoint) over several classes, all tables compared after every event.',
          COMMON_NOTE + 'Process death (torn files) is the database journal\'s business and cannot be exhibited by the model (atomic database by '
          'assumption). The injected failure is an exception raised before the statement is sent.',
          'Coq proof (state equality + determinism of the step function) + fault enumeration at statement boundaries + vm_compute replay',
@@ -299,7 +302,7 @@ def main():
         spec.loader.exec_module(m)
     man = dict(
         version=1,
-        setup_cmd='cd /verif/coq && python3 /verif/harness/pytrans.py; rm -f Makefile Makefile.conf && coq_makefile -f _CoqProject $(ls Model/*.v Gen/*.v Proofs/*.v Checks/*.v Props/*.v Refuted/*.v 2>/dev/null) -o Makefile && timeout 3000 make -j16',
+        setup_cmd='cd /verif/coq && python3 /verif/harness/pytrans.py; rm -f Makefile Makefile.conf && coq_makefile -f _CoqProject $(ls Model/*.v Gen/*.v Proofs/*.v Checks/*.v Props/*.v 2>/dev/null) -o Makefile && timeout 3000 make -j16',
         hooks=dict(guard='SQLALCHEMY_CONTINUUM_VERIF', enable='no hooks are needed: the harness observes through public SQLAlchemy events and the manager\'s public attributes',
                    baseline_off_cmd='cd /repo && /venv/bin/python -m pytest -ra -q -p no:cacheprovider --timeout=900 --continue-on-collection-errors',
                    source_commits=[], add_only=True),
